@@ -11,12 +11,16 @@ genuine counter-model of the VC; `unsat` here proves nothing and the obligation 
 import z3
 
 
-def _expand(f, lo, hi, depth=0):
+def _expand(f, lo, hi, depth=0, drop_real=False):
     if z3.is_quantifier(f):
         if not f.is_forall() and not f.is_exists():
             return f
         nv = f.num_vars()
         if any(f.var_sort(i) != z3.IntSort() for i in range(nv)):
+            if drop_real and f.is_forall():
+                # hypothesis position only: an axiom about the uninterpreted rounding function, which has been replaced by a
+                # concrete interpretation that satisfies it (checked by the obligations C07/lemma.round-model.*)
+                return z3.BoolVal(True)
             raise ValueError('non-Int quantifier in finite-scope expansion')
         body = f.body()
         insts = []
@@ -24,10 +28,10 @@ def _expand(f, lo, hi, depth=0):
         import itertools
         for vals in itertools.product(*ranges):
             inst = z3.substitute_vars(body, *[z3.IntVal(v) for v in reversed(vals)])
-            insts.append(_expand(inst, lo, hi, depth + 1))
+            insts.append(_expand(inst, lo, hi, depth + 1, drop_real))
         return z3.And(*insts) if f.is_forall() else z3.Or(*insts)
     if z3.is_app(f) and f.num_args() > 0 and f.sort() == z3.BoolSort():
-        kids = [_expand(c, lo, hi, depth) if c.sort() == z3.BoolSort() else c for c in f.children()]
+        kids = [_expand(c, lo, hi, depth, drop_real) if c.sort() == z3.BoolSort() else c for c in f.children()]
         return f.decl()(*kids)
     return f
 
@@ -51,8 +55,8 @@ def _consts(fs):
     return seen
 
 
-def refute(engine, ob):
-    cfg = engine.finite_scope
+def refute(engine, ob, cfg=None):
+    cfg = cfg or engine.finite_scope
     K = cfg.get('K', 5)
     L = cfg.get('L', 3)
     funs = cfg.get('funs', [])
@@ -67,6 +71,9 @@ def refute(engine, ob):
             for pref, val in cfg.get('set_bools', {}).items():
                 if name.split('!')[0] == pref and c.sort() == z3.BoolSort():
                     subs.append((c, z3.BoolVal(val)))
+            for pref, val in cfg.get('set_reals', {}).items():
+                if name.split('!')[0] == pref and c.sort() == z3.RealSort():
+                    subs.append((c, z3.RealVal(val)))
         if subs:
             forms = [z3.substitute(f, *subs) for f in forms]
         forms = [z3.simplify(f) for f in forms]
@@ -78,7 +85,8 @@ def refute(engine, ob):
                     bounds.append(z3.And(c >= 1, c <= K))
                 elif 'len' in name:
                     bounds.append(z3.And(c >= 0, c <= L))
-        forms = [_expand(f, -1, K + 2) for f in forms]
+        dr = bool(cfg.get('drop_real_axioms'))
+        forms = [_expand(f, -1, K + 2, 0, dr) for f in forms[:-1]] + [_expand(forms[-1], -1, K + 2)]
         s = z3.Solver()
         s.set('timeout', cfg.get('timeout_ms', 20000))
         for f in forms + bounds + list(fixed):
@@ -87,7 +95,7 @@ def refute(engine, ob):
         if r == z3.sat:
             m = s.model()
             ob.status = 'refuted'
-            ob.backend = f'z3-{z3.get_version_string()} finite-scope expansion (nalloc<={K}, len<={L})'
+            ob.backend = f'z3-{z3.get_version_string()} finite-scope expansion (nalloc<={K}, len<={L}; {cfg.get("label", "")})'
             ob.model = {str(d.name()): str(m[d])[:200] for d in m.decls() if d.arity() == 0 or 'h.' in str(d.name())}
             ob.note = 'counter-model found in finite scope (quantified form was undecided)'
         else:
